@@ -39,6 +39,7 @@ type c06Deliver struct {
 type c06Withdraw struct{}
 type c06Send struct{}
 type c06Restart struct{}
+type c06SetInfo struct{}
 type c06Execs struct{ e1, e2 bool }
 
 func (c06Sys) Root() *c06State {
@@ -65,6 +66,9 @@ func (c06Sys) Letters(s *c06State) []engine.Letter {
 	ls = append(ls, engine.Letter{Name: "SetExecutors(e2)", Data: c06Execs{false, true}})
 	ls = append(ls, engine.Letter{Name: "SetExecutors(e1,e2)", Data: c06Execs{true, true}})
 	ls = append(ls, engine.Letter{Name: "RestartViaGenesis", Data: c06Restart{}})
+	// the executor registers (first time) or refreshes the bridge info: other handlers' bookkeeping,
+	// the deposit sequence is none of its business
+	ls = append(ls, engine.Letter{Name: "SetBridgeInfo(by=e1)", Data: c06SetInfo{}})
 	return ls
 }
 
@@ -102,6 +106,15 @@ func (c06Sys) Step(s *c06State, l engine.Letter) (*c06State, string, *engine.Vio
 		c.bal = m
 	}
 	switch d := l.Data.(type) {
+	case c06SetInfo:
+		res := s.w.Deliver(ctx, opchildtypes.NewMsgSetBridgeInfo(world.Addr("e1").String(), c12Info("07-tendermint-0")))
+		if res.OK() != s.execs[0] {
+			return c, "x", viol("only-executors-finalize-deposits", "SetBridgeInfo by e1 accepted=%v although executor=%v (%v)", res.OK(), s.execs[0], res.Err)
+		}
+		if res.OK() {
+			return c, "ok", nil
+		}
+		return c, "rejected", nil
 	case c06Restart:
 		if err := s.w.RestartViaGenesis(ctx); err != nil {
 			return c, "error", viol("sequences-survive-a-restart", "export / validate / import of the module genesis failed: %v", err)
